@@ -17,6 +17,8 @@ var commonMounts = []string{
 	"internal/verifsim/simrt=sim/simrt",
 	"internal/verifsim/hlib=sim/hlib",
 	"internal/verifsim/ref/refformat=sim/ref/refformat",
+	"internal/verifsim/ref/refcal=sim/ref/refcal",
+	"internal/verifsim/ref/refstack=sim/ref/refstack",
 }
 
 var harnesses = map[string]*harnessConfig{
@@ -87,5 +89,17 @@ var props = map[string]*propConfig{
 			"sampling, not enumeration",
 		},
 		Probes: []string{"kill:step", "kill:CompareAndSwap @file.go", "kill:fs:writeat"},
+	},
+	"C10": {
+		Harness: "h1", Level: "exploration",
+		Families: []family{
+			{Name: "histories", Flags: map[string]string{"family": "histories"}, Quick: 2400, Thorough: 300000},
+		},
+		QuickBudget: 90 * time.Second, ThoroughBudget: 25 * time.Minute, Chunk: 50,
+		Rule: "one run = a history of 1..3 sessions (create / increment / close / reopen by new process objects = restart / extend), 1..3 concurrent writer processes per session, over a pool of names of 1..4096 bytes of arbitrary content (ASCII, any byte incl. NUL and newline, non-UTF-8, ditto marks), build metadata up to and beyond the 512-byte cap, optionally starting from a file written by the independent encoder (different placement policy); every intermediate snapshot is strictly decoded; the final content must equal the model and the library's Parse must agree with the independent decoder; distinct = distinct event-log hash; distinct_states counts distinct (previous limit mod 16384, name length) placement cases reached",
+		Real: []string{"internal/counter", "internal/mmap", "internal/telemetry", "Linux tmpfs / mmap"},
+		Stub: []string{"processes simulated in one address space", "Go scheduler", "wall clock"},
+		Assumptions: []string{"refformat (independent codec written from the layout comment) is the oracle", "scheduling points as in C03", "sampling, not enumeration"},
+		Probes: []string{"foreign-file"},
 	},
 }
